@@ -143,6 +143,19 @@ func init() {
 	Profiles["faults"] = p
 
 	p = general
+	p.Name = "bigreap" // C19 C10 C01: groups of 30-60 nodes, whole-group taint rates, mass expiry in one scan
+	p.BigGroups = true
+	p.MaxNodes = 60
+	p.MinGroups, p.MaxGroups = 1, 1
+	p.Scans = 14
+	p.ShortGrace = true
+	p.PBoundary = 0.8
+	p.PFleet, p.PAuto = 0, 0.3
+	p.PFault = 0.05
+	p.Ops = with(baseOps(), "load-low", 14, "load", 2, "load-up", 1, "complete", 8, "ext-taint-time", 2, "annotate", 1, "asg-bounds", 3)
+	Profiles["bigreap"] = p
+
+	p = general
 	p.Name = "fleet2" // C12: two or three groups scaling through launch templates, with fleet failures
 	p.MinGroups, p.MaxGroups = 2, 3
 	p.PFleet = 0.8
